@@ -110,6 +110,7 @@ type LogOpts struct {
 	TTLLabel   bool // a third of the streams carry the reserved label __ttl_days__ (stripped by the writer, sets the row TTL)
 	Huge       bool // every stream is more than 1 MiB: the parser hands the body over in one portion per stream
 	LabelPool  []string
+	Unordered  bool // half of the streams push their entries out of time order (legal: the store orders by timestamp)
 }
 
 // protoCaps: what each protocol can carry.
@@ -201,6 +202,10 @@ func NewLogCase(r *rand.Rand, o LogOpts) LogCase {
 				en.Value = float64(r.Intn(1<<20)) + float64(r.Intn(4))*0.25
 			}
 			st.Entries = append(st.Entries, en)
+		}
+		if o.Unordered && s%2 == 0 && len(st.Entries) > 1 {
+			ur := rand.New(rand.NewSource(int64(len(st.Entries))*7919 + int64(s)))
+			ur.Shuffle(len(st.Entries), func(i, j int) { st.Entries[i], st.Entries[j] = st.Entries[j], st.Entries[i] })
 		}
 		c.Streams = append(c.Streams, st)
 	}
